@@ -3,4 +3,4 @@
 # each change was confirmed suite-green when it was stored); prints one line per seed: DETECTED / MISSED
 cd "$(dirname "$0")/.."
 J="${1:-2}"
-ls seeded | xargs -P "$J" -I{} bash -c 's={}; p=${s:0:3}; out=$(SKIP_SUITE=1 tools/eval_seeded.sh seeded/$s $p 2>&1); if echo "$out" | grep -q "^VIOLATION property=$p"; then echo "$s DETECTED $(echo "$out" | grep -c "^VIOLATION") $(echo "$out" | grep check_exit)"; else echo "$s MISSED $(echo "$out" | grep -E "check_exit|tier=" | tr "\n" " " | cut -c1-200)"; fi'
+ls seeded | xargs -P "$J" -I{} bash -c 's={}; p=${s:0:3}; [ -f seeded/$s/check ] && p=$(cat seeded/$s/check); out=$(SKIP_SUITE=1 tools/eval_seeded.sh seeded/$s $p 2>&1); if echo "$out" | grep -q "^VIOLATION property=$p"; then echo "$s DETECTED $(echo "$out" | grep -c "^VIOLATION") $(echo "$out" | grep check_exit)"; else echo "$s MISSED $(echo "$out" | grep -E "check_exit|tier=" | tr "\n" " " | cut -c1-200)"; fi'
